@@ -688,4 +688,60 @@ theorem pyLt_class_order (a b c : Cell) (hab : a.key.rank = b.key.rank) (hbc : b
 /-- the hypotheses are met by `1`, `1.0`, `2` (one class) -/
 example : (Cell.int 1).key.rank = (Cell.flt 1).key.rank ∧ (Cell.flt 1).key.rank = (Cell.int 2).key.rank ∧ (Cell.int 1).key.rank ≤ 1 := by decide
 
+
+/-! ## Phase 5: `sorted()` is no longer an assumption -/
+
+/-- **`sorted(vs)` as a comparison sort**: a stable insertion sort that only ever asks Python's raising `<` (`pyLt`; a `TypeError`
+of any comparison it makes aborts the sort) returns, for EVERY list of cells (`Missing` included), exactly what the model's
+`pySorted` says: `TypeError` iff two members at different places are incomparable, otherwise the stable arrangement. -/
+theorem sorted_comparison_sort_eq (vs : List Cell) : pySortedE vs = pySorted vs :=
+  pySortedE_eq' vs
+
+/-- the same for `sorted(rows, key=k)` on row numbers (what `index` and `_in_index_order` call) -/
+theorem sortedBy_comparison_sort_eq (k : Nat → Cell) (xs : List Nat) : pySortedByE k xs = pySortedBy k xs :=
+  pySortedByE_eq' k xs
+
+/-- **TypeError iff two members are incomparable**: the comparison sort raises exactly when some `a` before some `b`
+in the list has `a < b` raise (by `pyLt_raises_iff`: neither is `Missing` and they are not both numbers or both strings) -/
+theorem sorted_raises_iff (vs : List Cell) :
+    pySortedE vs = .error .typeError ↔ ¬ vs.Pairwise (fun a b => ∃ r, pyLt a b = .ok r) :=
+  sorted_raises_iff' vs
+
+/-- the only error a sort can end with is the `TypeError` of a comparison -/
+theorem sorted_error_is_typeError (vs : List Cell) (e : Err) (h : pySortedE vs = .error e) : e = .typeError :=
+  sortE_err (fun c : Cell => c) vs e h
+
+/-- both branches occur: `[2, Missing, 1.0, 1]` sorts stably to `[1.0, 1, 2, Missing]`; `[1, Missing, 'a']` raises although the two
+incomparable members are never neighbours; `[None]` sorts, `[None, None]` raises -/
+example : pySortedE [.int 2, .missing, .flt 1, .int 1] = .ok [.flt 1, .int 1, .int 2, .missing] ∧
+    pySortedE [.int 1, .missing, .str [97]] = .error .typeError ∧
+    pySortedE [.none] = .ok [.none] ∧ pySortedE [.none, .none] = .error .typeError := by decide
+
+
+/-! ## Phase 5: `View` objects observed separately -/
+
+/-- **`len`, `to_dicts` and column access of any well-formed table or view refine the `Sel` model**: `len(t)` is the number of selected rows,
+`t.to_dicts()` is, row by row, the columns zipped with the row the table shows (`rowAt`, the same rows `list(t)` gives: `Table.OK.rows_eq`), and `t[c]` is a
+`list` / `SliceView` / `ListView` according to the selection, of that length, listing exactly the selected cells of the stored column, first cell included -/
+theorem view_observables (t : Table) (N : Nat) (hok : t.OK N) (hne : t.columns ≠ []) :
+    t.len = .ok (t.m N) ∧
+    t.toDicts = .ok ((List.range (t.m N)).map (fun i => t.columns.zip (t.rowAt i))) ∧
+    ∀ c ∈ t.columns, ∃ o, t.colObs c = .ok o ∧ o.kind = t.sel.kind ∧ o.len = t.m N ∧ o.items = .ok (t.vcol c) ∧
+      (0 < t.m N → o.first = .ok (cellAt (t.vcol c) 0)) :=
+  view_observables' t N hok hne
+
+/-- **view of a view** (what `where` on a where-result builds, `_try_slice` included): through an increasing selection of row numbers of ANY table or view,
+`len` is the number of selected rows and `to_dicts` gives exactly the selected rows' dicts of the parent, in order -/
+theorem view_of_view_observables (t : Table) (N : Nat) (hok : t.OK N) (hne : t.columns ≠ []) (select : List Nat)
+    (hinc : StrictInc select) (hlt : ∀ i ∈ select, i < t.m N) :
+    ∃ sel', composeSel t.sel select = .ok sel' ∧
+      Table.len { t with sel := sel' } = .ok select.length ∧
+      Table.toDicts { t with sel := sel' } = .ok (select.map (fun i => t.columns.zip (t.rowAt i))) :=
+  view_of_view_observables' t N hok hne select hinc hlt
+
+/-- a ListView of a SliceView: rows 1 and 3 of the slice `[1,5)` of a five-row table are stored rows 2 and 4 -/
+example : (composeSel (.slice 1 5) [1, 3] = .ok (.list [2, 4])) ∧ (composeSel (.slice 1 5) [1, 2] = .ok (.slice 2 4)) ∧
+    Table.toDicts { columns := [0], data := [(0, [.int 5, .int 6, .int 7, .int 8, .int 9])], sel := .list [2, 4], indexes := [] }
+      = .ok [[(0, .int 7)], [(0, .int 9)]] := by decide
+
 end Coba.C17
